@@ -90,6 +90,15 @@ func unpackB4(data byte, b0 *bool, b1 *bool, b2 *bool, b3 *bool) error {
 	return nil
 }
 
+// roundF16 rounds to the nearest integer, halves away from zero.
+func roundF16(f float32) int {
+	if f < 0 {
+		return int(f - 0.5)
+	}
+
+	return int(f + 0.5)
+}
+
 func packF16(f float32) []byte {
 	buffer := []byte{0, 0, 0}
 
@@ -99,12 +108,16 @@ func packF16(f float32) []byte {
 		f = -671088.64
 	}
 
-	signedMantissa := int(f * 100)
+	// The mantissa is the value in hundredths, scaled down by 2^exp and rounded to the
+	// nearest integer; exp is the smallest exponent for which it fits into 12 bits.
+	scaled := f * 100
 	exp := 0
+	signedMantissa := roundF16(scaled)
 
-	for signedMantissa > 2047 || signedMantissa < -2048 {
-		signedMantissa /= 2
+	for (signedMantissa > 2047 || signedMantissa < -2048) && exp < 15 {
+		scaled /= 2
 		exp++
+		signedMantissa = roundF16(scaled)
 	}
 
 	buffer[1] |= uint8(exp&15) << 3
